@@ -23,7 +23,7 @@ func CompileLuaChunk(source string, s ast.BlockStat) (kidx uint, consts []ir.Con
 	rootIrC := ir.NewCodeBuilder("<global chunk>", kp)
 	rootIrC.DeclareLocal("_ENV", rootIrC.GetFreeRegister())
 	irC := rootIrC.NewChild("<main chunk>")
-	c := &compiler{CodeBuilder: irC}
+	c := &compiler{CodeBuilder: irC, expDepth: new(int)}
 	c.compileFunctionBody(ast.Function{
 		ParList: ast.ParList{HasDots: true},
 		Body:    s,
@@ -34,11 +34,21 @@ func CompileLuaChunk(source string, s ast.BlockStat) (kidx uint, consts []ir.Con
 
 type compiler struct {
 	*ir.CodeBuilder
+
+	// expDepth counts the expressions being compiled inside one another (it is
+	// shared by the compilers of nested functions).
+	expDepth *int
 }
+
+// maxExpDepth bounds the recursion of the compiler.  The parser limits the
+// nesting of the source, but chains (f()()()..., a.b.c..., 1+1+1+...) are not
+// nested in the source and still make a tree as deep as they are long.
+const maxExpDepth = 20000
 
 func (c *compiler) NewChild(name string) *compiler {
 	return &compiler{
 		CodeBuilder: c.CodeBuilder.NewChild(name),
+		expDepth:    c.expDepth,
 	}
 }
 
